@@ -343,9 +343,9 @@ func c13(r *vc.Run) int {
 	pipe := c13Pipeline(r)
 	cov := map[string]any{
 		"pipeline_level":      pipe,
-		"evaluations":         m.Evaluations,
+		"evaluations":         m.Evaluations + m.Events["active_host_runs"] + pipe["runs"].(int),
 		"distinct_nontrivial": len(m.Distinct),
-		"rule":                "one evaluation = one seeded sequence of 30-80 acquire/failure/success events (failure streaks up to 80) with 1-8 concurrent waiters on the real token bucket under a virtual clock; distinct = distinct (capacity, rate, waiters, streak mode, releases, hook events) with at least one release",
+		"rule":                "(plus the active-host runs and the pipeline-level runs, counted as one evaluation each) one evaluation = one seeded sequence of 30-80 acquire/failure/success events (failure streaks up to 80) with 1-8 concurrent waiters on the real token bucket under a virtual clock; distinct = distinct (capacity, rate, waiters, streak mode, releases, hook events) with at least one release",
 		"samples":             m.Samples,
 		"events":              m.Events,
 		"children":            m.Children,
